@@ -1,5 +1,215 @@
-import LlgoVerif.Lemmas.GoType
+import LlgoVerif.Lemmas.GoTypeInj
 import LlgoVerif.Lemmas.Iface
+/-!
+# C07 — dynamic type identity and interface satisfaction coincide with Go's rules
+
+Property theorems only.  Models: `Model/GoType.lean` (`typeName` = `ssa/abi` `TypeName`),
+`Model/Iface.lean` (`scan`/`findMethod`/`newItabFuns` = `runtime` `Implements`/`findMethod`/`NewItab`);
+specification: `Spec/TypeIdent.lean`; lemmas: `Lemmas/GoType*.lean`, `Lemmas/Iface.lean`.
+
+The hash (`base64url ∘ sha256`) is a PARAMETER of every statement; its injectivity is a
+hypothesis, never an axiom.
+-/
 namespace LlgoVerif.Types
-theorem stub_c07 : True := trivial
+
+/-! ## the run-time name determines the type -/
+
+/-- **Full statement** (what C07 demands of the naming scheme): for a collision-free hash two types
+    get the same run-time name exactly when they are identical.  FALSE on the current code. -/
+def typeName_injective : Prop :=
+  ∀ (hash : List UInt8 → String), Function.Injective hash →
+    ∀ t₁ t₂ : GoType, (typeName hash t₁ = typeName hash t₂ ↔ identical t₁ t₂ = true)
+
+/-- an injective stand-in for the hash, used by the counterexamples (one character per byte) -/
+def byteChars (bs : List UInt8) : String := String.ofList (bs.map fun b => Char.ofNat b.toNat)
+
+theorem byteChars_injective : Function.Injective byteChars := by
+  intro a b h
+  have h := String.ofList_inj.1 h
+  refine (List.map_inj_right ?_).1 h
+  intro x y hxy
+  have key : ∀ z : UInt8, (Char.ofNat z.toNat).toNat = z.toNat := by
+    intro z
+    have hz : z.toNat < 256 := z.toNat_lt
+    have : z.toNat.isValidChar := by left; omega
+    simp [Char.ofNat, this, Char.ofNatAux, Char.toNat]
+  have := congrArg Char.toNat hxy
+  rw [key x, key y] at this
+  exact UInt8.toNat_inj.1 this
+
+/-- `struct{ A int "x:1" }` -/
+def tagX1 : GoType := .struct (.cons ['A'] none false ['x', ':', '1'] (.basic .int) .nil)
+/-- `struct{ A int "x:2" }` -/
+def tagX2 : GoType := .struct (.cons ['A'] none false ['x', ':', '2'] (.basic .int) .nil)
+
+/-- **Counterexample (struct tags).** `structHash` does not write the tag: the two struct types
+    above are not identical but have the same name under EVERY hash.  Replayed on the real
+    `ssa/abi` by the check (finding `samename:tag`, repair `fixes/C07-1.diff`). -/
+theorem typeName_injective_counterexample : ¬ typeName_injective := by
+  intro h
+  have := (h byteChars byteChars_injective tagX1 tagX2).1 rfl
+  simp [tagX1, tagX2, identical, identicalF, unalias] at this
+
+/-- `type T struct{…}` of package `p` (declaration 1) -/
+def namedT : GoType := .named 1 (some ['p']) ['T'] .pkg .nil
+/-- `struct{ AT }` with `type AT = T` -/
+def embAT : GoType := .struct (.cons ['A', 'T'] none true [] (.alias ['A', 'T'] namedT) .nil)
+/-- `struct{ T }` -/
+def embT : GoType := .struct (.cons ['T'] none true [] namedT .nil)
+
+/-- **Counterexample (embedded field names).** Erasing tags is not enough: `structHash` writes `-`
+    for an embedded field, so `struct{ AT }` and `struct{ T }` (field names `AT` / `T`, one type)
+    share a name.  Replayed by the check (finding `samename:embedded-name`). -/
+theorem typeName_injective_counterexample_embedded :
+    ¬ (∀ (hash : List UInt8 → String), Function.Injective hash → ∀ t₁ t₂ : GoType,
+        tagsErased t₁ = true → tagsErased t₂ = true →
+        (typeName hash t₁ = typeName hash t₂ ↔ identical t₁ t₂ = true)) := by
+  intro h
+  have := (h byteChars byteChars_injective embAT embT (by decide) (by decide)).1 rfl
+  simp [embAT, embT, identical, identicalF, unalias] at this
+
+/-- the hash token consists of base64url characters (no blank, newline, bracket, `$`, `*`, `<`, `.`, …) -/
+def HashClean (hash : List UInt8 → String) : Prop := ∀ bs, ∀ c ∈ (hash bs).toList, hashChar c = true
+
+/-- **Partial theorem, for every variant of `structHash`** (`cfg`: the pinned tree, or with the tag
+    repair and/or the embedded-name repair).  For every collision-free hash with base64url output and
+    all types `t₁ t₂` of the covered fragment — well-formed (`wfT`: sane identifier / path characters,
+    package present exactly on non-exported names and uniform per struct / interface, embedded
+    fields named by their type unless the variant writes the name, func-typed methods, named types
+    without type arguments and with reachable scope), tags harmless (`tagsOk`: the variant writes
+    them, or there are none), declarations rendered coherently (`Coherent`: same declaration ⇔ same
+    (PathOf package, name, scope indices)) — the names agree exactly when the types are identical.
+    Covers: basic types incl. `byte`/`rune`, pointer, slice, array length, map, channel direction,
+    func arity / order / variadic flag, struct field names / order / embedding / package of
+    non-exported names (and tags, in the repaired variant), interface method sets incl. package of
+    non-exported methods, aliases, named types by (package, name, scope indices).
+    NOT covered: type arguments (`typeArgString`), detached scopes (`Scope.pos`), closure structs. -/
+theorem typeNameCfg_injective_partial (cfg : Cfg) (hash : List UInt8 → String) (hinj : Function.Injective hash)
+    (hclean : HashClean hash) (ex : Str → Bool) (t₁ t₂ : GoType)
+    (w₁ : wfT cfg ex t₁ = true) (w₂ : wfT cfg ex t₂ = true)
+    (e₁ : tagsOk cfg t₁ = true) (e₂ : tagsOk cfg t₂ = true)
+    (hco : Coherent (declKeys t₁ ++ declKeys t₂)) :
+    typeNameCfg cfg hash t₁ = typeNameCfg cfg hash t₂ ↔ identical t₁ t₂ = true := by
+  unfold typeNameCfg
+  rw [String.ofList_inj]
+  have hi : Function.Injective fun cs => (hash (utf8 cs)).toList := by
+    intro a b h
+    exact utf8_injective (hinj (String.toList_inj.1 h))
+  exact inj_T hi (fun x c hc => hclean _ c hc) hco t₁ t₂
+    ⟨w₁, e₁, List.subset_append_left _ _⟩ ⟨w₂, e₂, List.subset_append_right _ _⟩
+
+/-- **Partial theorem for the pinned tree**: under `tagsErased` (no struct field carries a tag) and
+    the other side conditions of `typeNameCfg_injective_partial`. -/
+theorem typeName_injective_partial (hash : List UInt8 → String) (hinj : Function.Injective hash)
+    (hclean : HashClean hash) (ex : Str → Bool) (t₁ t₂ : GoType)
+    (w₁ : wfT .current ex t₁ = true) (w₂ : wfT .current ex t₂ = true)
+    (e₁ : tagsErased t₁ = true) (e₂ : tagsErased t₂ = true)
+    (hco : Coherent (declKeys t₁ ++ declKeys t₂)) :
+    typeName hash t₁ = typeName hash t₂ ↔ identical t₁ t₂ = true :=
+  typeNameCfg_injective_partial .current hash hinj hclean ex t₁ t₂ w₁ w₂ e₁ e₂ hco
+
+mutual
+theorem tagsOk_fixed : ∀ t : GoType, tagsOk .fixed t = true
+  | .basic _ => rfl
+  | .pointer e => by simp [tagsOk, tagsOk_fixed e]
+  | .slice e => by simp [tagsOk, tagsOk_fixed e]
+  | .array _ e => by simp [tagsOk, tagsOk_fixed e]
+  | .map k v => by simp [tagsOk, tagsOk_fixed k, tagsOk_fixed v]
+  | .chan _ e => by simp [tagsOk, tagsOk_fixed e]
+  | .alias _ a => by simp [tagsOk, tagsOk_fixed a]
+  | .func ps rs _ => by simp [tagsOk, tagsOkL_fixed ps, tagsOkL_fixed rs]
+  | .struct fs => by simp [tagsOk, tagsOkF_fixed fs]
+  | .iface ms => by simp [tagsOk, tagsOkM_fixed ms]
+  | .named _ _ _ _ targs => by simp [tagsOk, tagsOkL_fixed targs]
+theorem tagsOkL_fixed : ∀ l : TList, tagsOkL .fixed l = true
+  | .nil => rfl
+  | .cons t r => by simp [tagsOkL, tagsOk_fixed t, tagsOkL_fixed r]
+theorem tagsOkF_fixed : ∀ l : FList, tagsOkF .fixed l = true
+  | .nil => rfl
+  | .cons _ _ _ _ t r => by simp [tagsOkF, tagsOk_fixed t, tagsOkF_fixed r, show Cfg.fixed.tags = true from rfl]
+theorem tagsOkM_fixed : ∀ l : MList, tagsOkM .fixed l = true
+  | .nil => rfl
+  | .cons _ _ s r => by simp [tagsOkM, tagsOk_fixed s, tagsOkM_fixed r]
+end
+
+/-- **With both repairs (`fixes/C07-1.diff`, `fixes/C07-2.diff`) the tag hypothesis disappears**: struct
+    tags and embedded field names are then part of the name. -/
+theorem typeName_injective_partial_fixed (hash : List UInt8 → String) (hinj : Function.Injective hash)
+    (hclean : HashClean hash) (ex : Str → Bool) (t₁ t₂ : GoType)
+    (w₁ : wfT .fixed ex t₁ = true) (w₂ : wfT .fixed ex t₂ = true)
+    (hco : Coherent (declKeys t₁ ++ declKeys t₂)) :
+    typeNameCfg .fixed hash t₁ = typeNameCfg .fixed hash t₂ ↔ identical t₁ t₂ = true :=
+  typeNameCfg_injective_partial .fixed hash hinj hclean ex t₁ t₂ w₁ w₂ (tagsOk_fixed t₁) (tagsOk_fixed t₂) hco
+
+/-- Go's `token.IsExported` on ASCII names, for the examples -/
+def exAscii (s : Str) : Bool := match s with | c :: _ => c.isUpper | [] => false
+
+/-- in the repaired variant the two witnesses above are told apart, under every admissible hash -/
+theorem fixed_separates_witnesses (hash : List UInt8 → String) (hinj : Function.Injective hash) (hclean : HashClean hash) :
+    typeNameCfg .fixed hash tagX1 ≠ typeNameCfg .fixed hash tagX2 ∧
+    typeNameCfg .fixed hash embAT ≠ typeNameCfg .fixed hash embT := by
+  constructor
+  · intro h
+    have := (typeName_injective_partial_fixed hash hinj hclean exAscii tagX1 tagX2 (by decide) (by decide) (by decide)).1 h
+    simp [tagX1, tagX2, identical, identicalF, unalias] at this
+  · intro h
+    have := (typeName_injective_partial_fixed hash hinj hclean exAscii embAT embT (by decide) (by decide) (by decide)).1 h
+    simp [embAT, embT, identical, identicalF, unalias] at this
+
+
+/-- `struct{ A int; b p.T; *p.T }` of package `q`, and `map[string]func(...[]int) chan<- error`-like terms satisfy the hypotheses -/
+example :
+    let t₁ : GoType := .struct (.cons ['A'] none false [] (.basic .int)
+      (.cons ['b'] (some ['q']) false [] namedT (.cons ['T'] none true [] (.pointer namedT) .nil)))
+    let t₂ : GoType := .map (.basic .string) (.func (.cons (.slice (.array 3 (.basic .byte))) .nil)
+      (.cons (.chan .send (.named 2 none ['e', 'r', 'r', 'o', 'r'] .pkg .nil)) .nil) true)
+    wfT .current exAscii t₁ = true ∧ wfT .current exAscii t₂ = true ∧ tagsErased t₁ = true ∧ tagsErased t₂ = true ∧
+      Coherent (declKeys t₁ ++ declKeys t₂) := by decide
+
+/-- the tag pair and the embedded-alias pair satisfy the hypotheses of the repaired variant -/
+example : wfT .fixed exAscii tagX1 = true ∧ wfT .fixed exAscii tagX2 = true ∧
+    wfT .fixed exAscii embAT = true ∧ wfT .fixed exAscii embT = true ∧
+    Coherent (declKeys embAT ++ declKeys embT) := by decide
+
+/-! ## interface satisfaction -/
+
+open LlgoVerif.Face in
+/-- **`Implements` is correct for tables sorted by ONE strict order.**  For any irreflexive,
+    transitive order on method names: if the interface's table `t` and the operand's table `v` are
+    both strictly increasing (sorted, no duplicate names), the two-index scan of `Implements`
+    returns true iff every interface method `(name, type)` occurs in `v` — for ALL tables. -/
+theorem implements_scan_correct (lt : List Nat → List Nat → Prop) (ho : StrictOrder lt)
+    (t v : List Ent) (st : SortedBy lt t) (sv : SortedBy lt v) :
+    implScan t (some v) = true ↔ implSpec t v := by
+  unfold implScan
+  cases t with
+  | nil => simp [implSpec]
+  | cons tm ts => simpa using scan_correct ho v (tm :: ts) st sv
+
+open LlgoVerif.Face in
+/-- **`findMethod` / `NewItab` are correct for an operand table sorted in Go's string order**
+    (the order the `>=` test of `findMethod` uses); the interface's table may be in any order. -/
+theorem newItab_scan_correct (t v : List Ent) (sv : sortedNames v) :
+    (newItabFuns t v).isSome = true ↔ implSpec t v := newItabFuns_isSome t v sv
+
+open LlgoVerif.Face in
+/-- the hypotheses are satisfiable: two sorted tables -/
+example : SortedBy (fun a b => bytesLt a b = true) [⟨[77], 1, 1⟩, ⟨[78], 2, 1⟩] ∧
+    sortedNames [⟨[65], 3, 1⟩, ⟨[77], 1, 1⟩, ⟨[78], 2, 1⟩] := by
+  simp [SortedBy, sortedNames]; decide
+
+open LlgoVerif.Face in
+/-- **The precondition matters** (and the emitter violates it, finding `implements:table-order-mismatch`):
+    the interface table `[Beta, alpha]` in go/types' interface order against the method table
+    `[alpha, Beta]`-style order of a package whose path sorts first: every method is present, the
+    scan says no. -/
+theorem implements_scan_unsorted_counterexample :
+    ∃ t v : List Ent, implSpec t v ∧ implScan t (some v) = false ∧ (newItabFuns t v).isSome = true := by
+  refine ⟨[⟨[66], 1, 1⟩, ⟨[57, 46, 97], 2, 1⟩], [⟨[57, 46, 97], 2, 1⟩, ⟨[66], 1, 1⟩], ?_, by decide, by decide⟩
+  intro e he
+  simp at he
+  rcases he with rfl | rfl
+  · exact ⟨⟨[66], 1, 1⟩, by simp, rfl, rfl⟩
+  · exact ⟨⟨[57, 46, 97], 2, 1⟩, by simp, rfl, rfl⟩
+
 end LlgoVerif.Types
